@@ -15,7 +15,7 @@
    Diagnostics are reduced to error-ness per Content call; the flag [unsup]
    is not Go behaviour: it records that an evaluation left the model's universe
    (DUnsupported / CUnsupported), the correspondence check skips such cases. *)
-From HclV Require Import Base.Prelude Cty.Values Cty.Convert Cty.Ops Eval.Impl.
+From HclV Require Import Base.Prelude Cty.Values Cty.Convert Cty.Ops Eval.Impl Eval.Vars.
 Open Scope Z_scope.
 
 (* ---- input bodies ------------------------------------------------------------------- *)
@@ -400,4 +400,67 @@ Fixpoint observe_x (S : sch) (rho : ctx) {struct S} : xbody -> otree :=
                               | None => onode_empty
                               end)) (xc_blocks c))
             (xb_marks x) (xb_unknown x) (xc_unsup c)
+  end.
+
+(* ---- variables.go, variables_hcldec.go ---------------------------------------------------------------- *)
+(* WalkVariablesNode.Visit driven by walkVariablesWithHCLDec: the ROOT NAMES of the
+   traversals reported for a body under the schemata of a specification.  Visit ranges
+   over a Go map of attributes, so the order of the result is not defined: the
+   correspondence check compares the results as sets.  [content] is includeContent
+   (WalkVariables / VariablesHCLDec: true, WalkExpandVariables / ExpandVariablesHCLDec:
+   false).  The iterations carry cty.DynamicVal for key and value, as in Visit.
+   A block decoded by hcldec.BlockAttrsSpec has the child spec noopSpec{}, whose implied
+   schema is empty: SJust is walked like [Sch [] []] (so nothing inside is reported).
+   Visit reads a malformed dynamic block with a more liberal schema than decodeSpec; the
+   input type keeps no detail of those ([DDynBad]), [has_dynbad] says when the model does
+   not apply. *)
+Definition iter_inherits (i : iteration) (r : list Z) : bool :=
+  existsb (fun p => str_eqb r (fst p)) (it_inh i).
+(* "ours || inherited" of Visit for the attributes of the node's own body (n.it may be nil) *)
+Definition iter_binds (i : option iteration) (r : list Z) : bool :=
+  match i with
+  | None => false
+  | Some it => str_eqb r (it_name it) || iter_inherits it r
+  end.
+
+Fixpoint walk_vars (content : bool) (S : sch) {struct S} : option iteration -> dbody -> list (list Z) :=
+  let '(attrs, blocks, subs) :=
+    match S with
+    | SJust => ([], [], [])
+    | Sch attrs blocks =>
+        (attrs, blocks, map (fun p : list Z * Z * sch => (fst (fst p), walk_vars content (snd p))) blocks)
+    end in
+  fun it b =>
+  (* extendSchema, PartialContent *)
+  let ext := mkSchema attrs (headers blocks ++ [(s_dynamic, 1)]) in
+  let '(cattrs, cblocks, _) := native_partial ext b in
+  (if content
+   then flat_map (fun a => filter (fun r => negb (iter_binds it r)) (var_roots (snd a))) cattrs
+   else [])
+  ++ flat_map (fun d =>
+       match d with
+       | DDynamic t fe itn les body =>
+           let iname := match itn with Some n => n | None => t end in
+           let block_it := make_child it iname dyn_val dyn_val in
+           (* for_each: only the INHERITED iterators are filtered *)
+           filter (fun r => negb (iter_inherits block_it r)) (var_roots fe)
+           (* labels: the own iterator and the inherited ones *)
+           ++ filter (fun r => negb (str_eqb r iname || iter_inherits block_it r)) (flat_map var_roots les)
+           (* the content block, walked with the child spec of the block type if there is one *)
+           ++ match afind t subs with Some f => f (Some block_it) body | None => [] end
+       | DBlock t _ body =>
+           match afind t subs with Some f => f it body | None => [] end
+       | _ => []
+       end) cblocks.
+
+Fixpoint has_dynbad (fuel : nat) (b : dbody) : bool :=
+  match fuel with
+  | O => true
+  | S f =>
+      existsb (fun d => match d with
+                        | DDynBad _ => true
+                        | DBlock _ _ body => has_dynbad f body
+                        | DDynamic _ _ _ _ body => has_dynbad f body
+                        | DAttr _ _ => false
+                        end) b
   end.
